@@ -264,6 +264,13 @@ def run_case(case, seed):
                 ev_o, _, _ = tgedmd.amuset_hosvd(x, basis, sigma, b=b, reweight=w, num_eigvals=nev, threshold=thr, max_rank=mr,
                                                  return_option=case['ro'], rel_threshold=case['rel'], output_freq=of_)
             r.close(key + ':output_freq-changes-result', np.asarray(ev_o) / gscale, ev, 1e-10, 'output_freq=%d, %d snapshots' % (of_, m))
+        # importance ratios are defined up to a common factor: unnormalised (tiny) weights give the same eigenvalues when the cut of
+        # the singular values is relative
+        if w is not None and case['rel']:
+            with quiet():
+                ev_w, _, _ = tgedmd.amuset_hosvd(x, basis, sigma, b=b, reweight=1e-10 * np.asarray(w), num_eigvals=nev, threshold=thr, max_rank=mr,
+                                                 return_option=case['ro'], rel_threshold=True)
+            r.close(key + ':unnormalised-weights', np.asarray(ev_w) / gscale, ev, 1e-8, 'reweight scaled by 1e-10')
         kk = k if nev == np.inf else min(k, 2)
         if r.true(key + ':eigenvalue-count', ev.shape == (kk,), 'got %s expected %d (rank %d)' % (ev.shape, kk, k)):
             # multiset comparison (greedy matching against the leading part of the sorted dense spectrum)
